@@ -153,6 +153,12 @@ pub(crate) struct CoreInner {
 	/// flush must not release a segment listed here: until the apply, the
 	/// record is the only copy of the commit.
 	pub(crate) wal_in_flight: Mutex<std::collections::BTreeMap<u64, usize>>,
+
+	/// Serializes flushes of immutable memtables. The background flush task and a
+	/// caller-driven flush (checkpoint, close) both pick the OLDEST immutable
+	/// memtable; without this lock they can pick the same one, write the same
+	/// table file twice and install the table in the manifest twice.
+	pub(crate) flush_lock: Mutex<()>,
 }
 
 impl CoreInner {
@@ -220,6 +226,7 @@ impl CoreInner {
 			error_handler: Arc::new(BackgroundErrorHandler::new()),
 			visible_seq_num,
 			wal_in_flight: Mutex::new(std::collections::BTreeMap::new()),
+			flush_lock: Mutex::new(()),
 		})
 	}
 
@@ -505,6 +512,10 @@ impl CoreInner {
 	/// 2. Flushes it to SST via flush_immutable_to_sst (which also removes from queue)
 	/// 3. Schedules async WAL cleanup
 	fn flush_oldest_immutable_to_sst(&self) -> Result<Option<Arc<Table>>> {
+		// One flush at a time: the entry picked below stays in the immutable list
+		// until its table is installed, so a second flusher would pick it again
+		let _flush_guard = self.flush_lock.lock()?;
+
 		// Get the oldest immutable entry (clone to release lock before I/O)
 		let entry = {
 			let guard = self.immutable_memtables.read()?;
